@@ -1,4 +1,4 @@
-import EsbuildModel.Lemmas.ScopesWithPin
+import EsbuildModel.Lemmas.ScopesChains
 /-!
 C15 — MustNotBeRenamed and the `with` statement (hoistSymbols, findSymbol) and the implicit `arguments` binding.
 
@@ -18,7 +18,7 @@ Proved, for the walk of ONE hoisted symbol / for ONE reference (every scope chai
 * `pinned_symbol_pins_merge_target` — one step: the symbol a flagged symbol is merged into is flagged; no flag is ever
   taken away.
 * `with_pin_reaches_follow_partial` — a symbol whose walk passes a `with` scope: afterwards EVERY symbol on its link chain
-  is flagged, in particular what ast.FollowSymbols returns (no hypothesis on the symbol it is merged into any more).
+  is flagged, in particular what ast.FollowSymbols returns (the only hypothesis on the table: no link cycle).
 * `var_in_with_body_flags_chain` — the same for `with (o) var x;`.
 * `flagged_symbol_flags_chain` — the same for a symbol that is flagged when its walk starts.
 * `with_reference_flags_chain` — a reference inside a `with` statement: every symbol on the link chain of the symbol it
@@ -26,24 +26,21 @@ Proved, for the walk of ONE hoisted symbol / for ONE reference (every scope chai
 * `hoisted_var_arguments_pins_variable` — a hoisted `var arguments` that reaches the function body: the implicit
   `arguments` symbol is linked to the variable, the variable is flagged and is the end of the chain.
 
--- OPEN (`with_pin_reaches_follow`, full strength): the three chain theorems without the hypothesis `NoPassing` (the walk
--- does not pass a catch parameter or the implicit `arguments` of the same name — there the walk sets a link catch
--- parameter -> variable and goes on), and lifted to the symbol table at the END of the parse.
--- Not refuted: the kernel agrees on the flags of 490 000 generated programs, and
+-- OPEN (`with_pin_reaches_follow`, full strength): the chain theorems lifted from ONE walk / ONE reference to the symbol
+-- table at the END of the parse.  (The former side condition `NoPassing` is gone: "every chain ends" is shown to survive the
+-- link catch parameter -> variable, Lemmas/ScopesChains.lean, by the pigeonhole argument that a chain without a cycle is
+-- not longer than the table.  `ChainsEnd` itself is the well-formedness ast.FollowSymbols needs to terminate at all.)
+-- Not refuted: the kernel agrees on the flags of every generated program (770 000 cases since the first `with` fix), and
 --   function b(o){ try { throw 1 } catch (e) { with(o){ var e = 5 } { var e } return e + "/" + o.e } }  b({e:0})
--- gives "1/5" in Node and in esbuild --minify (current /repo).  What blocks the proof:
--- (1) `NoPassing`: after the link catch parameter -> variable the proof needs `ChainsEnd` again for the rest of the walk;
---     the model bounds the loop by the table size, so this needs "a chain without a cycle is not longer than the table" (a
---     pigeonhole argument that is not in the development);
--- (2) the end of the parse: flags are only added and links are only added on symbols that have none (one walk: proved,
---     `PinKept`), but links ARE added after a flag was set — by later walks of hoistSymbols (always from the symbol that is
---     being hoisted, or from a catch parameter / `arguments` symbol, never from the flagged end of a chain, which is a
---     var / function of an enclosing scope that was hoisted before) and by the visit pass (relinkFns: hoisted variable of a
---     block function -> the function, when the function is flagged or its block has a direct eval — in the eval case the
---     function gets its flag only when its scope is popped; lowerClass: inner class name -> class name, which copies the
---     flag).  Carrying "every flagged symbol has a flagged chain" through the whole of hoistSymbols needs the invariant
---     that a symbol is hoisted at most once (the disjointness argument of Lemmas/ScopesHoist.lean for links), and it does not
---     hold DURING the visit pass (popScope flags the members of a scope with direct eval one scope at a time).
+-- gives "1/5" in Node and in esbuild --minify (current /repo).  What blocks the lift:
+-- flags are only added and links are only added on symbols that have none (one walk: proved, `PinKept`), but links ARE added
+-- after a flag was set — by later walks of hoistSymbols (always from the symbol that is being hoisted, or from a catch
+-- parameter / `arguments` symbol, never from the flagged end of a chain, which is a var / function of an enclosing scope
+-- that was hoisted before) and by the visit pass (relinkFns: hoisted variable of a block function -> the function, which is
+-- flagged in the same step since commit 984c8f5; lowerClass: inner class name -> class name, which copies the flag).
+-- Carrying "every flagged symbol has a flagged chain" through the whole of hoistSymbols needs the invariant that a symbol is
+-- hoisted at most once (the disjointness argument of Lemmas/ScopesHoist.lean for links), and it does not hold DURING the
+-- visit pass (popScope flags the members of a scope with direct eval one scope at a time).
 -/
 namespace EsbuildModel.Scopes
 
@@ -62,30 +59,27 @@ theorem with_pin_reaches_follow_partial (name : Name) (mref orig : Nat) (sl firs
     (s : Frame) (post anc' : List Frame) (st st' : HSt)
     (h : hoistUp name mref orig sl first (pre ++ s :: post) st = some (anc', st')) (hw : s.kind = .with_)
     (hpre : LetsThrough name pre) (hm : mref < st.syms.length) (hl : linkOf st.syms mref = none)
-    (hfr : ∀ X, X ∈ pre ++ s :: post → ∀ x, lookup name X.members = some x → x ≠ mref)
-    (hnp : NoPassing st.syms name (pre ++ s :: post)) (hce : ChainsEnd st.syms) :
+    (hfr : ∀ X, X ∈ pre ++ s :: post → ∀ x, lookup name X.members = some x → x ≠ mref) (hce : ChainsEnd st.syms) :
     ChainPinned st'.syms mref ∧ ∀ t, followSym st'.syms mref = some t → isPinned st'.syms t = true := by
-  have hc := hoistUp_past_with_chain name mref orig sl pre first s post st anc' st' h hw hpre hm hl hfr hnp hce
+  have hc := hoistUp_past_with_chain' name mref orig sl pre first s post st anc' st' h hw hpre hm hl hfr hce
   exact ⟨hc, fun t ht => hc.followSym ht⟩
 
 /-- `with (o) var x;` -/
 theorem var_in_with_body_flags_chain (anc anc' : List Frame) (f f' : Frame) (st st' : HSt) (mref : Nat) (sym : Sym)
     (h : hoistMember anc f st mref = some (anc', f', st')) (hw : f.kind = .with_) (hs : st.syms[mref]? = some sym)
     (hk : sym.kind = .hoisted) (hl : linkOf st.syms mref = none)
-    (hfr : ∀ X, X ∈ anc → ∀ x, lookup sym.name X.members = some x → x ≠ mref)
-    (hnp : NoPassing st.syms sym.name anc) (hce : ChainsEnd st.syms) :
+    (hfr : ∀ X, X ∈ anc → ∀ x, lookup sym.name X.members = some x → x ≠ mref) (hce : ChainsEnd st.syms) :
     ChainPinned st'.syms mref ∧ ∀ t, followSym st'.syms mref = some t → isPinned st'.syms t = true := by
-  have hc := hoistMember_with_body_chain h hw hs hk hl hfr hnp hce
+  have hc := hoistMember_with_body_chain' h hw hs hk hl hfr hce
   exact ⟨hc, fun t ht => hc.followSym ht⟩
 
 /-- a symbol that must not be renamed when hoistSymbols starts to hoist it -/
 theorem flagged_symbol_flags_chain (name : Name) (mref orig : Nat) (sl first : Bool) (anc anc' : List Frame)
     (st st' : HSt) (h : hoistUp name mref orig sl first anc st = some (anc', st'))
     (hp : isPinned st.syms mref = true) (hl : linkOf st.syms mref = none)
-    (hfr : ∀ X, X ∈ anc → ∀ x, lookup name X.members = some x → x ≠ mref)
-    (hnp : NoPassing st.syms name anc) (hce : ChainsEnd st.syms) :
+    (hfr : ∀ X, X ∈ anc → ∀ x, lookup name X.members = some x → x ≠ mref) (hce : ChainsEnd st.syms) :
     ChainPinned st'.syms mref ∧ ∀ t, followSym st'.syms mref = some t → isPinned st'.syms t = true := by
-  have hc := hoistUp_pinned_chain name mref orig sl first anc st anc' st' h hp hl hfr hnp hce
+  have hc := hoistUp_pinned_chain' name mref orig sl first anc st anc' st' h hp hl hfr hce
   exact ⟨hc, fun t ht => hc.followSym ht⟩
 
 /-- an identifier reference inside a `with` statement -/
@@ -134,6 +128,27 @@ def exRef : List Item :=
 
 example : (run true false false exRef).map (fun r => (r.refs, followSym r.syms 3, isPinned r.syms 3, isPinned r.syms 2)) =
     some ([0, 3], some 2, true, true) := by decide +kernel
+
+/-- `function f(o) { try {} catch (x) { o; with (o) { var x } } }` (x = 2): the variable (3) passes the catch parameter (2), which
+is linked to it, and is installed in the function body; it is flagged -/
+def exCatch : List Item :=
+  [.scope .fnArgs false none [.decl .hoisted 9, .declArgs, .scope .fnBody false none
+    [.scope .block false none [], .scope .catchBinding false none [.decl .catchIdentifier 2, .scope .block false none
+      [.ref 9, .scope .with_ false none [.scope .block false none [.decl .hoisted 2]]]]]]]
+
+example : (run true false false exCatch).map (fun r => (followSym r.syms 2, isPinned r.syms 3)) = some (some 3, true) := by
+  decide +kernel
+
+/-- `function a(o) { o; with (o) { { function g() {} } } }` (g = 3): the hoisted variable of the block function (4) went past the
+`with`, so the rewrite of the block function is given up in the visit pass (commit 984c8f5): the function (3) is flagged
+and the variable is linked to it -/
+def exBlockFn : List Item :=
+  [.scope .fnArgs false none [.decl .hoisted 9, .declArgs, .scope .fnBody false none
+    [.ref 9, .scope .with_ false none [.scope .block false none [.scope .block false none
+      [.scope .fnArgs false none [.declArgs, .scope .fnBody false none []], .decl .hoistedFunction 3]]]]]]
+
+example : (run true false false exBlockFn).map (fun r => (r.hmap, followSym r.syms 4, isPinned r.syms 3, isPinned r.syms 4)) =
+    some ([(3, 4)], some 3, true, true) := by decide +kernel
 
 /-- `function f() { { var arguments } }`: the implicit symbol (0) is linked to the variable (1), which is flagged -/
 def exArgs : List Item :=
